@@ -41,6 +41,18 @@ def gen_cases(tier, seed):
         base = {"nodes": nodes, "edges": edges, "flow": dict(zip(edges, fl)), "planted": [], "wt": "int", "mode": "edge"}
         cases.append({"cyc": False, "mode": "edge", "wt": "int", "kdelta": 0, "knone": False, "ignore": [], "scale": [], "starts": [], "ends": [], "superset": None,
                       "plr": [[[0, 15], [16, 18], [19, 20], [21, 30], [31, 100000]], [1.6, 1.0, 1.3, 1.7, 1.0]], "spec": I.spec_of(base)})
+    # ... with an explicit length attribute (incl. zero-length edges and edges without a length): a path through EVERY edge is as long as the
+    # whole graph plus the two connecting edges, and a zero-length shortcut leaves the long way round just as long
+    for fl, ln, extra_ in (([3, 3, 3], [1, 2, 1], []), ([2, 2], [1, None], []), ([4, 4, 4, 4], [2, 0, 3, 1], []), ([5, 5, 5], [1, 1, 1], [("0", "2", 0)]), ([2, 2, 2, 2], [1, 1, 1, 1], [("1", "3", 0), ("0", "2", 0)])):
+        nodes = [str(i) for i in range(len(fl) + 1)]; edges = list(zip(nodes, nodes[1:]))
+        flow_ = dict(zip(edges, fl)); la_ = {e: {"len": l} for e, l in zip(edges, ln) if l is not None}
+        for u_, v_, l_ in extra_:
+            edges.append((u_, v_)); flow_[(u_, v_)] = 0; la_[(u_, v_)] = {"len": l_}
+        base = {"nodes": nodes, "edges": edges, "flow": flow_, "planted": [], "wt": "int", "mode": "edge"}
+        for plr_ in ([[[0, 3], [4, 60]], [1.0, 0.5]], [[[0, 60]], [1.0]], None):
+            for kd_ in (0, 1):
+                cases.append({"cyc": False, "mode": "edge", "wt": "int", "kdelta": kd_, "knone": False, "ignore": [], "scale": [], "starts": [], "ends": [], "superset": None,
+                              "plr": plr_, "lenattr": True, "spec": I.spec_of(base, extra_eattr=la_)})
     # corpus 'hourglass': every allowed weight exceeds every flow value and all paths share a zero-flow waist edge, so the error / slack on
     # the waist reaches the SUM of the allowed weights
     for f_, wst in ((9, 0), (4, 1), (7, 0)):
@@ -125,7 +137,13 @@ def gen_cases(tier, seed):
             c["plr"] = rng.choice([[[[0, 3], [4, 60]], [1.0, 0.5]], [[[0, 3], [4, 60]], [1.6, 1.0]], [[[0, 2], [3, 4], [5, 60]], [1.0, 1.7, 0.5]],
                                    [[[0, 60]], [0.25]], [[[0, 3], [4, 60]], [0.4, 0.3]], [[[0, 3], [4, 60]], [0.2, 1.0]]])
         drop = [e for e in [models._elem(x) for x in c["ignore"]] if rng.random() < 0.3]
-        c["spec"] = I.spec_of(base, drop_attr=drop)
+        la_ = None
+        if not cyc and not node and (c.get("plr") or gen.rng_for("C08len", seed, len(cases)).random() < 0.08):
+            r3 = gen.rng_for("C08len2", seed, len(cases))
+            if r3.random() < 0.6:
+                # lengths named by length_attr (whole numbers incl. 0; an edge without one has length 1)
+                la_ = {e: {"len": r3.choice([0, 1, 1, 2, 3])} for e in base["edges"] if r3.random() < 0.8}; c["lenattr"] = True
+        c["spec"] = I.spec_of(base, drop_attr=drop, extra_eattr=la_)
         cases.append(c)
     return cases
 
@@ -146,6 +164,8 @@ def build_kw(case, k):
         kw["solution_weights_superset"] = case["superset"]
     if case.get("plr"):
         kw["path_length_ranges"] = case["plr"][0]; kw["path_length_factors"] = case["plr"][1]
+    if case.get("lenattr"):
+        kw["length_attr"] = "len"
     return kw
 
 
@@ -157,7 +177,9 @@ def columns(G, mode, cyc, starts, ends, B=3):
     S, T = st_sets(G, starts, ends)
     if not cyc:
         P = ref.st_paths(G, S, T)
-        return [collections.Counter(p) if mode == "node" else collections.Counter(ref.path_edges(p)) for p in P], [len(p) + 1 for p in P]
+        # length of a path = lengths of its edges (attribute 'len' where the case names it as length_attr, default 1) + the two connecting edges of length 1
+        return ([collections.Counter(p) if mode == "node" else collections.Counter(ref.path_edges(p)) for p in P],
+                [(len(p) + 1) if mode == "node" else sum(G.edges[e].get("len", 1) for e in ref.path_edges(p)) + 2 for p in P])
     comp = ref.scc_map(G)
     cap = {e: (1 if comp[e[0]] != comp[e[1]] else B) for e in G.edges}
     edges, vecs = ref.walk_vectors(G, S, T, cap, limit=3000)
@@ -205,7 +227,10 @@ def classify_mechanism(solve, cols, m, mode, lib_value, cols_fn=None):
 
 def run_one(cls, case, k, viol, obs, desc, tagstr, expect_solved=True, classify=None):
     M.TRACE.reset()
-    res = models.run({"cls": cls, "spec": case["spec"], "kw": build_kw(case, k)}, solver_options=SO)
+    kw_ = build_kw(case, k)
+    if cls.endswith("Cycles"):
+        kw_.pop("length_attr", None)       # (the walk model has no path lengths; without length factors the lengths play no part in the DAG model either)
+    res = models.run({"cls": cls, "spec": case["spec"], "kw": kw_}, solver_options=SO)
     if any(t.get("status") == "kTimeLimit" for t in M.TRACE.trace):
         obs["c08.time_limited"] += 1
         return None
@@ -320,7 +345,7 @@ def run_case(case):
             def fac(route):
                 if not plr:
                     return 1
-                L = len(route) + 1
+                L = (len(route) + 1) if mode == "node" else sum(G.edges[e].get("len", 1) for e in zip(route, route[1:]) if G.has_edge(*e)) + 2
                 for (lo, hi), f in zip(plr[0], plr[1]):
                     if lo <= L <= hi:
                         return f
